@@ -83,6 +83,15 @@ example : (Curve.new ⟨0, .flat 4⟩ ⟨1, .flat 4⟩).toOption.map
     = some ⟨⟨0, .flat 4⟩, ⟨3, .points 4 3⟩⟩ := by decide
 example : Curve.new ⟨0, .flat 2⟩ ⟨1, .points 2 3⟩ = .ok ⟨⟨0, .flat 2⟩, ⟨1, .points 2 3⟩⟩ := by decide
 
+/-- `[7, -7, 9] m // 2` is `[3, -4, 4] m` (floor, not truncation); assigning to `dimension` is refused and
+nothing is appended to the store -/
+example : run Gen.poscDb (opFuncSimple Gen.poscDb) []
+      [.make (.init .none 3 (.valFirst (some (.sized ⟨.list, [7, -7, 9]⟩)) (some uM) none)),
+       .op 0 (.arith .floordiv (.operand (.num 2) true)),
+       .op 0 (.assign .dimension)]
+    = [⟨.none, ⟨3, ⟨.list, [7, -7, 9]⟩, .simple cLength uM⟩⟩,
+       ⟨.none, ⟨3, ⟨.list, [3, -4, 4]⟩, .simple cLength uM⟩⟩] := by decide +kernel
+
 end Examples
 
 end Barril.Fixed
